@@ -3,6 +3,7 @@ package props
 import (
 	"fmt"
 	"math/rand"
+	"strings"
 
 	"verifharness/hist"
 )
@@ -409,7 +410,236 @@ func (c03) Generate(r *rand.Rand, t string) []*Case {
 		}
 		out = append(out, refCaseRandom(r, max, SetupOpts{}, 0))
 	}
+	for i, n := 0, tier(t, 800, 80000); i < n; i++ {
+		out = append(out, c03CollisionCase(r, i))
+	}
 	return out
+}
+
+// ---- stream "collision-structure" --------------------------------------------------------
+//
+// The STRUCTURE of a name collision, which the random stream (a handful of paths drawn from a
+// fixed pool) never builds:
+//
+//	colliders   3..7 (1 case in 8: 11..14, so that two-digit numbers are handed out) distinct
+//	            paths whose name is the same base: plain (h3.io/store), other spellings that
+//	            guess to the same name (Store, -store-, store/, 9store, st.ore), standard-library
+//	            paths whose declared name is the base (math/rand + crypto/rand), and paths given
+//	            the base as ImportName / ImportAlias hint;
+//	numbered    1..3 paths whose OWN name is base+number - guessed (kv.io/store2, kv.io/Store-10)
+//	            or hinted (ImportName / ImportAlias "store2") - with numbers around those the
+//	            colliders are about to be given (1, 2, 3, k-1, k, k+1, 10, 11, 01);
+//	prefixed    with PackagePrefix P: hints named P_base and P_base+number (the name that ends up
+//	            in the import block after the prefix is added must be unique too);
+//	order       the numbered paths are referenced before all colliders, after all of them, after
+//	            the j-th collider for every j, or everything is shuffled;
+//	file        package name p, the base itself or base+number; NewFilePathName with one of the
+//	            colliders (or numbered paths) as the local path, which is then written bare.
+//
+// Oracle (refOracle): all import names of the rendered file are pairwise distinct legal
+// identifiers and each traced qualifier resolves to the path it was built with.
+var c03Bases = []string{"store", "d", "rand", "x", "pkg", "x1", "fmt", "template", "type", "len", "a0", "v2"}
+
+var c03StdByName = map[string][]string{"rand": {"math/rand", "crypto/rand"}, "fmt": {"fmt"}, "template": {"text/template", "html/template"}}
+
+func c03CollisionCase(r *rand.Rand, i int) *Case {
+	base := c03Bases[i%len(c03Bases)]
+	k := 3 + r.Intn(5)
+	if i%8 == 7 {
+		k = 11 + r.Intn(4)
+	}
+	prefix := ""
+	if r.Intn(3) == 0 {
+		prefix = pick(r, prefixPool)
+	}
+	var paths []string
+	seen := map[string]bool{}
+	var hints hist.History
+	tagset := map[string]bool{}
+	add := func(p string) int {
+		if seen[p] {
+			return -1
+		}
+		seen[p] = true
+		paths = append(paths, p)
+		return len(paths) - 1
+	}
+	hint := func(p, name string) {
+		kind := pick(r, []string{"importname", "importalias"})
+		hints = append(hints, hist.Op{Kind: kind, F: 0, A: p, B: name})
+	}
+	// ---- colliders
+	var colliders []int
+	std := append([]string{}, c03StdByName[base]...)
+	for tries := 0; len(colliders) < k && tries < 200; tries++ {
+		h := r.Intn(60)
+		var p string
+		switch r.Intn(12) {
+		case 0:
+			p = fmt.Sprintf("h%d.io/%s%s", h, strings.ToUpper(base[:1]), base[1:])
+		case 1:
+			p = fmt.Sprintf("h%d.io/-%s-", h, base)
+		case 2:
+			p = fmt.Sprintf("h%d.io/%s/", h, base)
+		case 3:
+			p = fmt.Sprintf("h%d.io/9%s", h, base)
+		case 4:
+			p = fmt.Sprintf("h%d.io/%s.%s", h, base[:1], base[1:])
+		case 5:
+			if len(std) > 0 {
+				p, std = std[0], std[1:]
+				tagset["collider=std-name"] = true
+				break
+			}
+			fallthrough
+		case 6:
+			// a path with an unrelated element that is GIVEN the base as its name
+			p = fmt.Sprintf("z%d.io/other%d", h, r.Intn(9))
+			if seen[p] {
+				continue
+			}
+			hint(p, base)
+			tagset["collider=hinted"] = true
+		default:
+			p = fmt.Sprintf("h%d.io/%s", h, base)
+		}
+		if j := add(p); j >= 0 {
+			colliders = append(colliders, j)
+		}
+	}
+	// ---- numbered paths
+	nums := []string{"1", "2", "3", fmt.Sprint(k - 1), fmt.Sprint(k), fmt.Sprint(k + 1), "10", "11", "01"}
+	var numbered []int
+	for m := 1 + r.Intn(3); m > 0; m-- {
+		d := pick(r, nums)
+		var p string
+		switch r.Intn(6) {
+		case 0:
+			p = fmt.Sprintf("kv%d.io/%s%s%s", r.Intn(9), strings.ToUpper(base[:1]), base[1:], "-"+d)
+			tagset["numbered=guessed"] = true
+		case 1:
+			p = fmt.Sprintf("z%d.io/num%d", r.Intn(60), r.Intn(9))
+			if seen[p] {
+				continue
+			}
+			hint(p, base+d)
+			tagset["numbered=hinted"] = true
+		case 2:
+			if prefix == "" {
+				continue
+			}
+			p = fmt.Sprintf("z%d.io/pre%d", r.Intn(60), r.Intn(9))
+			if seen[p] {
+				continue
+			}
+			n := prefix + "_" + base
+			if r.Intn(3) > 0 {
+				n += d
+			}
+			hint(p, n)
+			tagset["numbered=hinted-prefix_base"] = true
+		default:
+			p = fmt.Sprintf("kv%d.io/%s%s", r.Intn(9), base, d)
+			tagset["numbered=guessed"] = true
+		}
+		if j := add(p); j >= 0 {
+			numbered = append(numbered, j)
+		}
+	}
+	// ---- the file
+	setup := hist.History{}
+	local := ""
+	switch r.Intn(6) {
+	case 0:
+		setup = append(setup, hist.Op{Kind: "newfile", F: 0, A: base + pick(r, []string{"", "1", "2"})})
+		if IsKeywordPath("a.b/"+base) || base == "type" {
+			setup[0].A = "p" // `package type` is not a file
+		} else {
+			tagset["package-name=base(+number)"] = true
+		}
+	case 1:
+		all := append(append([]int{}, colliders...), numbered...)
+		local = paths[all[r.Intn(len(all))]]
+		name := pick(r, []string{"q", base + "2", "p"})
+		if base == "type" && name != "q" {
+			name = "q"
+		}
+		setup = append(setup, hist.Op{Kind: "newfilepathname", F: 0, A: local, B: name})
+		tagset["local=one-of-the-paths"] = true
+	default:
+		setup = append(setup, hist.Op{Kind: "newfile", F: 0, A: "p"})
+	}
+	if prefix != "" {
+		setup = append(setup, hist.Op{Kind: "prefix", F: 0, A: prefix})
+	}
+	r.Shuffle(len(hints), func(a, b int) { hints[a], hints[b] = hints[b], hints[a] })
+	setup = append(setup, hints...)
+	// ---- order of the references (= order of registration, up to the key order of a Dict)
+	var refs []int
+	rep := func(j int) {
+		for n := 1 + r.Intn(2); n > 0; n-- {
+			refs = append(refs, j)
+		}
+	}
+	order := ""
+	mode := r.Intn(4)
+	if len(colliders) < 2 {
+		mode = 3
+	}
+	switch mode {
+	case 0:
+		order = "numbered-first"
+		for _, j := range numbered {
+			rep(j)
+		}
+		for _, j := range colliders {
+			rep(j)
+		}
+	case 1:
+		order = "numbered-last"
+		for _, j := range colliders {
+			rep(j)
+		}
+		for _, j := range numbered {
+			rep(j)
+		}
+	case 2:
+		at := 1 + r.Intn(len(colliders)-1) // after the at-th collider
+		order = "numbered-after-collider-" + c03Small(at)
+		for n, j := range colliders {
+			if n == at {
+				for _, m := range numbered {
+					rep(m)
+				}
+			}
+			rep(j)
+		}
+	default:
+		order = "shuffled"
+		for j := range paths {
+			rep(j)
+		}
+		r.Shuffle(len(refs), func(a, b int) { refs[a], refs[b] = refs[b], refs[a] })
+	}
+	rc, h := BuildRefCase(r, paths, setup, local, refs, nil)
+	h = append(h, hist.Op{Kind: "noformat", F: 0, Flag: r.Intn(2) == 0}, hist.Op{Kind: "render", F: 0}, hist.Op{Kind: "imports", F: 0})
+	tags := []string{"colliders=" + c03Small(len(colliders)), fmt.Sprintf("numbered=%d", len(numbered)), "order=" + order,
+		fmt.Sprintf("prefix=%v", prefix != ""), "base=" + base}
+	tags = append(tags, sortedKeys(tagset)...)
+	// NonTrivial: at least three paths compete for one name and at least one more path is
+	// itself named base+number
+	return &Case{Hist: h, Stream: "collision-structure", NonTrivial: len(colliders) >= 3 && len(numbered) >= 1,
+		Meta: map[string]interface{}{"rc": rc}, Tags: tags}
+}
+
+func c03Small(n int) string {
+	switch {
+	case n <= 4:
+		return fmt.Sprint(n)
+	case n <= 7:
+		return "5-7"
+	}
+	return "8+"
 }
 
 func (c03) Compare(c *Case, exp, got []hist.Obs) string { return CompareAll(exp, got) }
